@@ -72,6 +72,7 @@ pub fn exit_probes(w: &World, book: &Book, cfg: &Cfg, st: &mut Stats, out: &mut 
             let n0 = out.len();
             st.eval("C06", format!("{}|{}|lot:{}|id:{}|m:{}{}", mode, a.class.name(), a.size % cfg.inc == 0, id_form(id), marker_of(w, &a.base).short(), marker_of(w, &cfg.base).short()));
             st.count("C06", "exit_probes");
+            st.sample("C06", || json!({"probe": pop.to_json(), "order": a.raw, "outcome": o.tag(), "net_delta": ledger_delta(w, &w2).iter().map(|(k, v)| json!([k.0, k.1, v.to_string()])).collect::<Vec<_>>()}), 3);
             if !o.is_ok() {
                 viol(out, "C06", "exit", &format!("{} of an open ask refused", mode), format!("{:?} ; ask {} ; increment {}", o, a.raw, cfg.inc));
                 tag(out, n0, &pop);
@@ -242,6 +243,9 @@ pub fn auth_matrix(w: &World, h: &Hist, book: &Book, cfg: &Cfg, r: &mut Rng, st:
             let id = msg[kind.as_str()]["id"].as_str().unwrap_or("");
             let roles = role_set(cfg, book, s, id);
             st.eval("C05", format!("matrix|{}|{}|{}", kind, roles, o.tag()));
+            if roles != "-" && !o.is_ok() {
+                st.sample("C05", || json!({"probe": msg, "sender": s, "sender_roles": roles, "outcome": o.tag()}), 3);
+            }
             st.count("C05", "matrix_probes");
             if o.is_ok() {
                 st.count("C05", "matrix_probes_accepted_from_rightful_or_flagged");
@@ -411,6 +415,9 @@ pub fn query_battery(w: &World, h: &Hist, book: &Book, r: &mut Rng, st: &mut Sta
             let raw = w.store.data.get(&map_key(ns, id)).and_then(|v| serde_json::from_slice::<Value>(v).ok());
             let on_book = raw.is_some();
             st.eval("C16", format!("{}|{}|{}|{}", kind, if on_book { "on-book" } else { status }, if canon_uuid(id) { "canonical" } else { "other-form" }, if res.is_ok() { "ok" } else { "err" }));
+            if on_book || *status != "open" {
+                st.sample("C16", || json!({"query": {kind: {"id": id}}, "id_status": if on_book { "on-book" } else { status }, "result": match &res { Ok(v) => v.clone(), Err(e) => json!({"error": e.chars().take(80).collect::<String>()}) }}), 4);
+            }
             match (&res, &raw) {
                 (Err(e), _) if e == "QUERY-MUTATED-STORAGE" => viol(out, "C16", "query", "a query modified storage", format!("{} {}", kind, id)),
                 (Ok(v), Some(rw)) => {
